@@ -7,9 +7,9 @@ package cesium
 
 import (
 	"context"
-	mrand "math/rand"
 	"encoding/binary"
 	"fmt"
+	mrand "math/rand"
 	"os"
 	"runtime/debug"
 	"sort"
@@ -159,10 +159,10 @@ func vTSBytes(t int64) []byte { return binary.LittleEndian.AppendUint64(nil, uin
 
 type genOpts struct {
 	MaxGroups, MaxDataPerGroup, MaxWriters, MaxWrites, MaxReads int
-	Deletes, GC, Iter                                          bool
-	MaxDeletes, MaxGC, MaxIters                                int
-	NoReopen                                                   bool
-	NoSleep                                                    bool
+	Deletes, GC, Iter                                           bool
+	MaxDeletes, MaxGC, MaxIters                                 int
+	NoReopen                                                    bool
+	NoSleep                                                     bool
 	// Rename adds channel renames (meta.json rewrites) to the script
 	Rename bool
 	// AutoSweeps adds auto-span (chunk-sized) iterator traversals to the read mix
@@ -175,9 +175,9 @@ type planSeg struct {
 	// idxTouched: a delete naming this group's index channel was planned after the
 	// segment was written, so ts may no longer be what the index holds
 	idxTouched bool
-	start  int64
-	ts     []int64          // committed index timestamps, ascending
-	has    map[uint32]bool  // data channels that already have (or had) data anywhere in this segment
+	start      int64
+	ts         []int64         // committed index timestamps, ascending
+	has        map[uint32]bool // data channels that already have (or had) data anywhere in this segment
 }
 
 type planGroup struct {
@@ -189,6 +189,10 @@ type planGroup struct {
 	// wiped remembers segments that were deleted as a whole: a later writer may write
 	// the very same timestamps again (re-ingesting a time range with new values)
 	wiped []*planSeg
+	// wipedSlot: slots whose segment was deleted as a whole. Only a re-ingesting writer
+	// (same timestamps again) may take such a slot: the rest of the slot's range may be
+	// occupied by a writer that abutted the wiped segment.
+	wipedSlot map[int]bool
 }
 
 type planWriter struct {
@@ -212,15 +216,15 @@ type planWriter struct {
 const vSlot = 1000
 
 type planner struct {
-	t       *rapid.T
-	o       genOpts
-	sch     vSchema
-	groups  []*planGroup
-	writers map[int]*planWriter
-	nextW   int
-	ops     []vOp
-	allTS   []int64
-	bounds  []int64
+	t           *rapid.T
+	o           genOpts
+	sch         vSchema
+	groups      []*planGroup
+	writers     map[int]*planWriter
+	nextW       int
+	ops         []vOp
+	allTS       []int64
+	bounds      []int64
 	pastDeletes []vOp
 	renames     int
 }
@@ -344,7 +348,7 @@ func (p *planner) openWriter() bool {
 				break
 			}
 		}
-		for g.used[slot] {
+		for g.used[slot] || (again == nil && g.wipedSlot[slot]) {
 			slot++
 		}
 		g.used[slot] = true
@@ -556,6 +560,10 @@ func (p *planner) del() {
 				}
 				if sg.start/vSlot == int64(sg.slot) {
 					g.used[sg.slot] = false
+					if g.wipedSlot == nil {
+						g.wipedSlot = map[int]bool{}
+					}
+					g.wipedSlot[sg.slot] = true
 					g.wiped = append(g.wiped, sg)
 				}
 			} else {
@@ -768,7 +776,7 @@ type vRun struct {
 	afterOp   func(i int, op vOp, changed bool)
 	extraStep func(r *vRun, i int, op vOp) (bool, *drv.Failure)
 	finish    func(r *vRun) *drv.Failure
-	opts    []Option
+	opts      []Option
 	// facts for non-triviality
 	commits, cutReads, reads int
 	deletes, gcs, iters      int
@@ -778,7 +786,7 @@ type vRun struct {
 	// taint is set once the run has performed an operation that is a recorded known
 	// finding's precondition and corrupts state; it prefixes every later signature.
 	taint string
-	shape                    []string
+	shape []string
 	// nontrivial overrides the default non-triviality rule of the engine
 	nontrivial func(r *vRun) bool
 }
